@@ -337,7 +337,8 @@ func genDoc(t *rapid.T, kind string) []byte {
 		l := docs.Layout{BreakAfterComma: rapid.Bool().Draw(t, "brk"), BlankLines: rapid.IntRange(0, 2).Draw(t, "blank"), Trailing: rapid.Bool().Draw(t, "trail"), CRLF: rapid.IntRange(0, 3).Draw(t, "crlf") == 0, NoFinalNewline: rapid.Bool().Draw(t, "nofinal")}
 		return []byte(docs.MultiNewick(genModels(t, false), l))
 	case "nexus":
-		o := docs.NexusOpts{Translate: rapid.Bool().Draw(t, "translate"), Taxa: rapid.Bool().Draw(t, "taxa"), Data: rapid.IntRange(0, 3).Draw(t, "data") == 0, Comments: rapid.Bool().Draw(t, "ncomments"), Lower: rapid.Bool().Draw(t, "lower"), Unknown: rapid.IntRange(0, 3).Draw(t, "unknown") == 0}
+		o := docs.NexusOpts{Translate: rapid.Bool().Draw(t, "translate"), Taxa: rapid.Bool().Draw(t, "taxa"), Data: rapid.IntRange(0, 3).Draw(t, "data") == 0, Comments: rapid.Bool().Draw(t, "ncomments"), Lower: rapid.Bool().Draw(t, "lower"), Unknown: rapid.IntRange(0, 3).Draw(t, "unknown") == 0,
+			InlineEnd: rapid.Bool().Draw(t, "inlineend"), TwoBlocks: rapid.IntRange(0, 3).Draw(t, "twoblocks") == 0}
 		return []byte(docs.Nexus(genModels(t, true), o))
 	case "phyloxml":
 		if rapid.Bool().Draw(t, "taxonomy") {
@@ -479,7 +480,7 @@ func FuzzNewick(f *testing.F) {
 
 func FuzzNexus(f *testing.F) {
 	ms := sameTaxaModels()
-	fuzzReader(f, "nexus", []string{docs.Nexus(ms, docs.NexusOpts{Taxa: true}), docs.Nexus(ms, docs.NexusOpts{Translate: true, Taxa: true, Data: true, Comments: true, Unknown: true}), docs.Nexus(ms[:1], docs.NexusOpts{Lower: true, Translate: true})})
+	fuzzReader(f, "nexus", []string{docs.Nexus(ms, docs.NexusOpts{Taxa: true}), docs.Nexus(ms, docs.NexusOpts{Translate: true, InlineEnd: true, TwoBlocks: true}), docs.Nexus(ms, docs.NexusOpts{Translate: true, Taxa: true, Data: true, Comments: true, Unknown: true}), docs.Nexus(ms[:1], docs.NexusOpts{Lower: true, Translate: true})})
 }
 
 func FuzzPhyloXML(f *testing.F) {
